@@ -77,7 +77,8 @@ func validateGpuFractionAnnotation(hasGpuFractionAnnotation bool, gpuFractionFro
 		return nil
 	}
 	gpuFraction, gpuFractionErr := strconv.ParseFloat(gpuFractionFromAnnotation, 64)
-	if gpuFractionErr != nil || gpuFraction <= 0 || gpuFraction >= 1 {
+	// written as a negated range check so that NaN, which fails every comparison, is rejected as well
+	if gpuFractionErr != nil || !(gpuFraction > 0 && gpuFraction < 1) {
 		return fmt.Errorf(
 			"gpu-fraction annotation value must be a positive number smaller than 1.0")
 	}
